@@ -41,4 +41,22 @@ def runSweep (payload : String) : String × String × String :=
     (line, line, " ".intercalate unknown)
   | _ => ("BADCASE", "BADCASE", "")
 
+/-- stream `freepol` (C17): a PushPolicy frees a copy of the handle of its own stack while `Push` is running. Freeing a handle is a
+matter of that handle and of the read-only flag alone: the copy becomes zero without an error whenever the policy is consulted at all
+(some value is offered while there is room); the instance the original handle refers to takes the values as usual. -/
+def runFreePol (payload : String) : String × String × String :=
+  match payload.splitOn " | " with
+  | recv :: rest =>
+    match (parseVal (words recv)).1 with
+    | .stk _ c xs =>
+      let vals := words (" ".intercalate rest)
+      let n0 := xs.length
+      let room : Option Nat := if c.cap > 0 then some ((c.cap - 1).toNat - n0) else none
+      let consulted := !vals.isEmpty && (match room with | some r => r > 0 | none => true)
+      let taken := match room with | some r => min r vals.length | none => vals.length
+      let line := s!"free={if consulted then "z1e0" else "-"} init=1 len={n0 + taken}"
+      (line, line, "")
+    | _ => ("BADCASE", "BADCASE", "")
+  | _ => ("BADCASE", "BADCASE", "")
+
 end Stackage.Driver
